@@ -5,6 +5,7 @@ import CallbagModel.Inv.ComposeClosed
 import CallbagModel.Inv.ComposeComplete
 import CallbagModel.Closed.Linear
 import CallbagModel.Closed.Prog
+import CallbagModel.Closed.Prog2
 /-!
 # C06 — iterable programming: pull pipelines compute the corresponding list function
 
@@ -189,5 +190,24 @@ theorem C06_every_program_with_concat (p : Closed.Prog) (hpos : p.takesPos) :
 theorem C06_every_program_with_concat_safe (p : Closed.Prog) (hpos : p.takesPos) :
     ∀ s, SReach (Closed.thenM p.toM Closed.forEachM).M s → Safe s ∧ SafeFor 4 s ∧ SafeFor 5 s :=
   Closed.prog_safe p hpos
+
+/-! ## … and `flatten(map(…))`
+
+`Closed.Prog2 = src | stage | concat | flatRep k p` (`flatRep k p` = `flatten(map(|a| from_iter(a .. a+k))(p))`); `Prog2.toM` builds the
+network `flatPlug` of `Ops/FlatPlug.lean`: the outer source, the `Flatten` machine, and one `from_iter` machine per outer datum, created
+when flatten subscribes to it.  Side condition `Prog2.ok`: `take n` with `n ≥ 1`, and the argument of every `flatRep` is LINEAR — it then
+delivers data only when pulled (`PullOnly`), so flatten never switches away from a live inner source.  Without that the statement is
+FALSE against lazy sinks (execution in `Inv/FlatPlugSafe.lean`: `flatten` over `concat!(take(1)(…), …)`: concat's `got_pull` is sticky,
+the unrequested datum makes flatten drop a live inner — observation O7 of DESIGN §9.4); closed with the eager `for_each` such programs are
+covered by the differential comparison only, as are `flatRep` over `flatRep`, the `tri` family and n-ary `concat!` as one machine. -/
+
+theorem C06_every_program (p : Closed.Prog2) (hok : p.ok) :
+    ∀ s, SReach (Closed.thenM p.toM Closed.forEachM).M s →
+      BasicSafe s ∧ applied s.tr <+: listSem p.toPipe ∧ (s.stack = [] → s.tr ≠ [] → applied s.tr = listSem p.toPipe) :=
+  Closed.prog2_correct p hok
+
+theorem C06_every_program_safe (p : Closed.Prog2) (hok : p.ok) :
+    ∀ s, SReach (Closed.thenM p.toM Closed.forEachM).M s → Safe s ∧ SafeFor 4 s ∧ SafeFor 5 s :=
+  Closed.prog2_safe p hok
 
 end Cb.Thm
